@@ -429,6 +429,15 @@ func ruleAMR(r *Run) {
 			}
 			if ci, ok := ins.(ssa.CallInstruction); ok {
 				c := ci.Common()
+				switch cn := calleeName(c); cn {
+				case "(*sync.WaitGroup).Add", "(*sync.WaitGroup).Done", "(*sync.WaitGroup).Wait":
+					// the obligations order these calls by their position; a deferred (or spawned)
+					// one runs somewhere else: `defer wg.Wait()` joins after the done handshake,
+					// `defer wg.Done()` in the reducer acknowledges only when the reducer returns
+					if _, plain := ins.(*ssa.Call); !plain {
+						a.bad("A10", "deferred-sync", ins, cn+" is deferred or started with go: it does not run where it stands, so the ordering obligations (Add before the spawns, Done after the effect, Wait before the handshake and the returns) say nothing about it")
+					}
+				}
 				switch calleeName(c) {
 				case "builtin:close":
 					closes = append(closes, ci)
@@ -707,7 +716,11 @@ func ruleAMR(r *Run) {
 		a.bad("A3", "acc-cell", Sr, "could not identify the accumulator cell")
 		return
 	}
-	rc := Sr.(*ssa.Call)
+	rc, isPlainCall := Sr.(*ssa.Call)
+	if !isPlainCall {
+		a.bad("A3", "reduceFunc-call-kind", Sr, "reduceFunc is started with go/defer instead of being called by the reducer: reductions can overlap and the result is not threaded into acc")
+		return
+	}
 	accOK := false
 	if len(rc.Call.Args) == 2 {
 		if ld, ok := unwrap(rc.Call.Args[0]).(*ssa.UnOp); ok && ld.Op == token.MUL && a.cell(ld.X) == ssa.Value(accCell) {
